@@ -20,6 +20,9 @@ pub const NEAR_KEYWORDS: &[&str] = &[
     // names with a meaning in the AIDL / Java / Android world
     "getInterfaceVersion", "getInterfaceHash", "getTransactionName", "asBinder", "toString", "equals", "hashCode", "describeContents", "writeToParcel",
     "readFromParcel", "CREATOR", "Stub", "Proxy", "Default", "DESCRIPTOR", "VERSION", "HASH", "android", "os", "java", "lang", "Object",
+    // names the library uses internally, misspelt keywords
+    "Array", "Unresolved", "Primitive", "cons", "conts", "interfac", "interfaces", "enumm", "packag", "parcelabl", "onewa", "imprt", "voi", "vod",
+    "type", "value", "A", "B", "LOW", "HIGH", "NONE",
 ];
 
 pub fn ident(rng: &mut Rng) -> String {
@@ -47,7 +50,7 @@ pub fn ident(rng: &mut Rng) -> String {
 }
 
 pub fn upper_ident(rng: &mut Rng) -> String {
-    const POOL: &[&str] = &["Foo", "Bar", "Baz", "Qux", "Item", "Data", "IService", "Thing", "Node", "Blob", "XFoo", "FooX", "Fo", "Foo2"];
+    const POOL: &[&str] = &["Foo", "Bar", "Baz", "Qux", "Item", "Data", "IService", "Thing", "Node", "Blob", "XFoo", "FooX", "Fo", "Foo2", "Array", "Unresolved", "Object", "Status", "Level"];
     if rng.chance(2, 3) {
         rng.pick(POOL).to_string()
     } else {
@@ -139,7 +142,59 @@ pub fn value(rng: &mut Rng, depth: usize) -> Val {
     }
 }
 
+/// annotations the AIDL world knows, with their usual parameter names
+pub const AIDL_ANNOTATIONS: &[(&str, &[&str])] = &[
+    ("Backing", &["type"]),
+    ("SuppressWarnings", &["value"]),
+    ("JavaDerive", &["toString", "equals"]),
+    ("RustDerive", &["Clone", "Copy", "PartialEq"]),
+    ("nullable", &["heap"]),
+    ("UnsupportedAppUsage", &["maxTargetSdk", "trackingBug", "expectedSignature", "publicAlternatives"]),
+    ("Descriptor", &["value"]),
+    ("Enforce", &["condition"]),
+    ("JavaPassthrough", &["annotation"]),
+    ("VintfStability", &[]),
+    ("Hide", &[]),
+    ("FixedSize", &[]),
+    ("SensitiveData", &[]),
+    ("JavaDefault", &[]),
+    ("JavaDelegator", &[]),
+    ("PermissionManuallyEnforced", &[]),
+    ("RequiresNoPermission", &[]),
+    ("PropagateAllowBlocking", &[]),
+    ("JavaOnlyStableParcelable", &[]),
+    ("NdkOnlyStableParcelable", &[]),
+    ("utf8InCpp", &[]),
+    ("Deprecated", &["note"]),
+    ("Override", &[]),
+];
+
 pub fn annotation(rng: &mut Rng) -> Ann {
+    if rng.chance(1, 3) {
+        let (name, keys) = *rng.pick(AIDL_ANNOTATIONS);
+        let params = if keys.is_empty() && rng.chance(2, 3) {
+            None
+        } else {
+            let mut v: Vec<(String, Option<String>)> = Vec::new();
+            for k in keys.iter() {
+                if rng.chance(2, 3) {
+                    let val = match rng.below(6) {
+                        0 => None,
+                        1 => Some(rng.pick_str(&["1", "0", "7", "true", "\"\"", "\"x\""]).to_string()),
+                        2 => Some(rng.pick_str(&["\"byte\"", "\"int\"", "\"long\"", "\"short\"", "\"all\"", "\"unused\""]).to_string()),
+                        _ => Some(scalar_lit(rng)),
+                    };
+                    v.push((k.to_string(), val));
+                }
+            }
+            if rng.chance(1, 5) {
+                v.push((ident(rng), Some(scalar_lit(rng))));
+            }
+            Some(v)
+        };
+        let trailing_comma = params.as_ref().map_or(false, |p| !p.is_empty() && rng.chance(1, 4));
+        return Ann { name: name.to_string(), params, trailing_comma };
+    }
     const NAMES: &[&str] = &["nullable", "utf8InCpp", "Backing", "VintfStability", "JavaOnlyStableParcelable", "A", "X_1", "_x", "in", "int", "for", "List"];
     let name = if rng.chance(3, 4) { rng.pick(NAMES).to_string() } else { ident(rng) };
     let params = if rng.chance(1, 2) {
@@ -320,20 +375,24 @@ pub fn constant(rng: &mut Rng, cfg: &GenCfg) -> Member {
     }
 }
 
+pub const ELEMENT_NAMES: &[&str] = &["A", "B", "C", "LOW", "HIGH", "NONE", "VALUE1", "VALUE2", "OK", "FAIL"];
+
 pub fn field(rng: &mut Rng, cfg: &GenCfg) -> Member {
-    Member::Field {
-        anns: annotations(rng, cfg.ann_num, cfg.ann_den),
-        ty: ty_cfg(rng, cfg, cfg.max_type_depth),
-        name: ident(rng),
-        value: if rng.chance(1, 3) { Some(value(rng, 0)) } else { None },
-        pre: Pre::default(),
+    let t = ty_cfg(rng, cfg, cfg.max_type_depth);
+    let mut v = if rng.chance(1, 3) { Some(value(rng, 0)) } else { None };
+    if let Ty::Custom(segs) = &t {
+        // a default that names an element of the field's own (enum) type: Level.LOW
+        if rng.chance(1, 3) {
+            v = Some(Val::Dotted(segs[segs.len() - 1].clone(), rng.pick_str(ELEMENT_NAMES).to_string()));
+        }
     }
+    Member::Field { anns: annotations(rng, cfg.ann_num, cfg.ann_den), ty: t, name: ident(rng), value: v, pre: Pre::default() }
 }
 
 pub fn enum_elem(rng: &mut Rng, cfg: &GenCfg) -> Member {
     Member::EnumElem {
         anns: annotations(rng, cfg.ann_num, cfg.ann_den),
-        name: ident(rng),
+        name: if rng.chance(1, 2) { rng.pick_str(ELEMENT_NAMES).to_string() } else { ident(rng) },
         value: if rng.chance(1, 2) { Some(scalar_lit(rng)) } else { None },
         pre: Pre::default(),
     }
@@ -382,6 +441,13 @@ pub fn item(rng: &mut Rng, cfg: &GenCfg) -> Item {
                 Member::Method { name, args, .. } => {
                     if !seen.is_empty() && rng.chance(1, 3) {
                         *name = rng.pick(&seen).clone();
+                        if rng.chance(1, 4) {
+                            // the same name in another case (a different identifier)
+                            let flipped: String = name.chars().enumerate().map(|(i, c)| if i == 0 { if c.is_ascii_lowercase() { c.to_ascii_uppercase() } else { c.to_ascii_lowercase() } } else { c }).collect();
+                            if !reflex::is_non_ident_word(&flipped) {
+                                *name = flipped;
+                            }
+                        }
                     }
                     seen.push(name.clone());
                     let mut arg_seen: Vec<String> = Vec::new();
@@ -405,9 +471,71 @@ pub fn item(rng: &mut Rng, cfg: &GenCfg) -> Item {
             }
         }
     }
+    // annotations where the AIDL world really puts them (a maintainer's special cases key on these combinations)
+    let mut item_anns = annotations(rng, cfg.ann_num, cfg.ann_den);
+    if rng.chance(1, 4) {
+        let pick_val = |rng: &mut Rng| -> Option<String> {
+            match rng.below(5) {
+                0 => None,
+                1 => Some(rng.pick_str(&["1", "0", "x".len().to_string().as_str(), "true", "7"]).to_string()),
+                2 => Some(rng.pick_str(&["\"byte\"", "\"int\"", "\"long\"", "\"\"", "\"b\"", "\"é\""]).to_string()),
+                _ => Some(scalar_lit(rng)),
+            }
+        };
+        let a = match kind {
+            ItemKind::Enum => Ann { name: "Backing".into(), params: Some(vec![("type".into(), pick_val(rng))]), trailing_comma: false },
+            ItemKind::Parcelable => {
+                let n = rng.pick_str(&["JavaDerive", "RustDerive", "FixedSize", "JavaOnlyStableParcelable", "VintfStability", "SuppressWarnings"]);
+                let keys: &[&str] = match n {
+                    "JavaDerive" => &["toString", "equals"],
+                    "RustDerive" => &["Clone", "PartialEq"],
+                    "SuppressWarnings" => &["value"],
+                    _ => &[],
+                };
+                Ann { name: n.into(), params: if keys.is_empty() { None } else { Some(keys.iter().map(|k| (k.to_string(), pick_val(rng))).collect()) }, trailing_comma: false }
+            }
+            ItemKind::Interface => {
+                let n = rng.pick_str(&["VintfStability", "SensitiveData", "JavaDelegator", "PermissionManuallyEnforced", "SuppressWarnings", "Descriptor"]);
+                let keys: &[&str] = match n {
+                    "SuppressWarnings" | "Descriptor" => &["value"],
+                    _ => &[],
+                };
+                Ann { name: n.into(), params: if keys.is_empty() { None } else { Some(keys.iter().map(|k| (k.to_string(), pick_val(rng))).collect()) }, trailing_comma: false }
+            }
+        };
+        item_anns.insert(rng.below(item_anns.len() + 1), a);
+    }
+    for m in members.iter_mut() {
+        if !rng.chance(1, 8) {
+            continue;
+        }
+        let n = rng.pick_str(&["nullable", "utf8InCpp", "SuppressWarnings", "Deprecated", "Hide", "UnsupportedAppUsage", "Enforce", "RequiresNoPermission", "PropagateAllowBlocking", "Override"]);
+        let a = Ann {
+            name: n.into(),
+            params: match n {
+                "SuppressWarnings" => Some(vec![("value".into(), Some("\"all\"".into()))]),
+                "Deprecated" => Some(vec![("note".into(), Some("\"use other\"".into()))]),
+                "Enforce" => Some(vec![("condition".into(), Some("\"permission = x\"".into()))]),
+                "nullable" if rng.chance(1, 3) => Some(vec![("heap".into(), Some("true".into()))]),
+                _ => None,
+            },
+            trailing_comma: false,
+        };
+        match m {
+            Member::Method { anns, args, .. } => {
+                if rng.chance(1, 2) || args.is_empty() {
+                    anns.push(a);
+                } else {
+                    let k = rng.below(args.len());
+                    args[k].anns.push(a);
+                }
+            }
+            Member::Const { anns, .. } | Member::Field { anns, .. } | Member::EnumElem { anns, .. } => anns.push(a),
+        }
+    }
     Item {
         kind,
-        anns: annotations(rng, cfg.ann_num, cfg.ann_den),
+        anns: item_anns,
         oneway: kind == ItemKind::Interface && rng.chance(1, 4),
         name: upper_ident(rng),
         trailing_comma: kind == ItemKind::Enum && !members.is_empty() && rng.chance(1, 3),
@@ -417,6 +545,25 @@ pub fn item(rng: &mut Rng, cfg: &GenCfg) -> Item {
 }
 
 pub fn doc(rng: &mut Rng, cfg: &GenCfg) -> Doc {
+    let mut d = doc_header(rng, cfg);
+    let mut cfg2 = cfg.clone();
+    if cfg2.customs.is_empty() {
+        for i in &d.imports {
+            cfg2.customs.push(i.clone());
+            cfg2.customs.push(vec![i[i.len() - 1].clone()]);
+            if i.len() > 2 {
+                cfg2.customs.push(i[i.len() - 2..].to_vec());
+            }
+        }
+        for dp in &d.declared {
+            cfg2.customs.push(dp.segs.clone());
+        }
+    }
+    d.item = item(rng, &cfg2);
+    d
+}
+
+fn doc_header(rng: &mut Rng, cfg: &GenCfg) -> Doc {
     let ni = if cfg.big && rng.chance(1, 30) {
         if rng.chance(1, 8) {
             *rng.pick(&[128usize, 256, 257])
@@ -431,7 +578,7 @@ pub fn doc(rng: &mut Rng, cfg: &GenCfg) -> Doc {
         package: qualified(rng, 1, 4),
         imports: (0..ni).map(|_| qualified(rng, 2, 4)).collect(),
         declared: (0..nd).map(|_| Declared { anns: annotations(rng, 1, 6), segs: qualified(rng, 1, 3) }).collect(),
-        item: item(rng, cfg),
+        item: Item { kind: ItemKind::Parcelable, anns: vec![], oneway: false, name: "X".into(), members: vec![], trailing_comma: false, pre: Pre::default() },
     }
 }
 
